@@ -1,4 +1,4 @@
-\* MC_GoChannel_u_thorough.cfg2
+\* unbuffered, repaired protocol (KF = {}), 2 senders x 2 receivers x 2 calls, all call kinds, close()
 SPECIFICATION Spec
 CONSTANTS
   Cap = 0
